@@ -432,3 +432,34 @@ Theorem C18_bright_perc_per_event_offsets_one_to_one :
                 (a == a0 - nth i l 0)%Q /\ (v == v0 - nth i l 0)%Q.
 Proof. exact bright_perc_batch_offsets. Qed.
 Print Assumptions C18_bright_perc_per_event_offsets_one_to_one.
+
+(* ---- principal inertia ratio >= 1: the hypothesis discharged ------------- *)
+(* [pd_contour]: 0 < N20, 0 < N02, N11^2 < 4 N20 N02 (second-moment matrix
+   positive definite), a checkable integer predicate that the harness
+   evaluates on every generated contour.  Under it every non-negative root h
+   of the discriminant is below the trace, hence the ratio is at least one. *)
+Theorem C18_positive_definite_root_below_trace :
+  forall (c : list pt) (h : Q),
+    pd_contour c = true -> (0 <= h)%Q -> (h * h == zq (Disc_N c))%Q ->
+    (h < zq (T_N c))%Q.
+Proof. exact pd_root_below_trace. Qed.
+Print Assumptions C18_positive_definite_root_below_trace.
+
+Theorem C18_principal_ratio_at_least_one_pd :
+  forall (c : list pt) (h : Q),
+    pd_contour c = true -> (0 <= h)%Q -> (h * h == zq (Disc_N c))%Q ->
+    (1 <= prnc_sq (zq (T_N c)) h)%Q.
+Proof. exact pd_principal_ratio_ge_1. Qed.
+Print Assumptions C18_principal_ratio_at_least_one_pd.
+
+(* Proved class: every non-degenerate triangle, anywhere, in any
+   orientation, has positive definite second moments
+   (4 N20 N02 - N11^2 = 3 a00^6).  For general polygons positive
+   definiteness (Cauchy-Schwarz on the area integral) is NOT proved: it is
+   the stated assumption of the ">= 1" clause, evaluated per contour. *)
+Theorem C18_triangle_positive_definite_partial :
+  forall x1 y1 x2 y2 x3 y3 : Z,
+    let c := [(x1, y1); (x2, y2); (x3, y3)] in
+    a00 c <> 0 -> pd_contour c = true.
+Proof. exact triangle_positive_definite. Qed.
+Print Assumptions C18_triangle_positive_definite_partial.
